@@ -106,6 +106,11 @@ class CGraph:
         # traverse the computational tree
         for nf,f in enumerate(self.functionList):
             try:
+                if is_set(f.setitem):
+                    # in-place write into a buffer: save the contents that are about to be overwritten
+                    # in THIS evaluation (the pullback restores them), not those seen while recording
+                    sl = f.setitem[0]
+                    f.setitem = (sl, operator.getitem(f.args[0].x, sl).copy())
                 f.__class__.pushforward(f.func, f.args, Fout = f)
             except Exception as e:
                 err_str = 'pushforward of node %d failed (%s)'%(nf,f.func.__name__)
